@@ -258,9 +258,9 @@ macro_rules! segwit_rec {
         }
     };
 }
-//@ harness: segwit_rec_l69 class=B tier=quick bound="string el1 + 69 lower-case data characters (version, 56 payload, 12 checksum), all contents; check_characters by contract, validate_checksum by recording model" props=C17,C06 timeout=900
+//@ harness: segwit_rec_l69 class=B tier=thorough bound="string el1 + 69 lower-case data characters (version, 56 payload, 12 checksum), all contents; check_characters by contract, validate_checksum by recording model" props=C17,C06 timeout=3000
 //@ clause: SegwitHrpstring::new at the shortest acceptable blinded length: version > 16 rejected; else validate_checksum is asked exactly once, about ALL data characters (version included, before it is stripped), for Blech32 iff version 0 else Blech32m, CHECKSUM_LENGTH 12; a negative verdict is final; on Ok the version character and the 12 checksum characters are stripped afterwards and the payload is 35..=73 bytes
 segwit_rec!(segwit_rec_l69, 69, 72, 75);
-//@ harness: segwit_rec_l98 class=B tier=quick bound="string el1 + 98 lower-case data characters (version, 85 payload = 53 bytes, 12 checksum), all contents; same models" props=C17,C06 timeout=900
+//@ harness: segwit_rec_l98 class=B tier=thorough bound="string el1 + 98 lower-case data characters (version, 85 payload = 53 bytes, 12 checksum), all contents; same models" props=C17,C06 timeout=3000
 //@ clause: same at the length of a blinded version-0 P2WPKH address (33 + 20 bytes): version 0 is accepted, with the Blech32 variant
 segwit_rec!(segwit_rec_l98, 98, 101, 104);
